@@ -67,7 +67,10 @@ def scenarios(ctx, pid):
         rb = rand_box(rng, n) if (rebound if rebound is not None else rng.random() < 0.25) else None
         return EvoRecorder(n, m, lo, up, ev, idgen, rebound_from=rb)
 
-    for n in range(1, 6):
+    # construction order matters for state shared between instances (tables sized by the first object
+    # built, class-level caches): descending dimension first, then a seeded shuffle
+    order = [5, 4, 3, 2, 1] if ctx.seed % 2 == 0 else rng.sample(range(1, 6), 5)
+    for n in order:
         ev = byn[n]
         if n == 1:
             for _ in range(6 * scale):
@@ -86,6 +89,7 @@ def scenarios(ctx, pid):
             continue
         # (a) every subinterval of small grids: left end, an interior point, the last double before the right end
         small = [m for m in range(1, 8) if n * m <= (10 if ctx.quick else 14)]
+        rng.shuffle(small)      # density order matters for caches shared between objects
         for m in small:
             r = recorder(n, m, ev)
             nm = n * m
@@ -108,6 +112,7 @@ def scenarios(ctx, pid):
                 r.roundtrip(1.0)
         # (b) larger densities (N*m <= 50): stress points
         ms = sorted(set([2, 10] + [rng.randint(2, 50 // n) for _ in range(3 * scale)] + [50 // n, max(2, 40 // n), max(2, 30 // n + 1)]))
+        ms = ms[::-1] if rng.random() < 0.5 else rng.sample(ms, len(ms))
         for m in ms:
             if n * m > 50 or m < 1:
                 continue
